@@ -15,3 +15,4 @@ python3 "$(dirname "$0")/../vx/bounded.py" opverdict quick >/dev/null 2>&1 || tr
 python3 "$(dirname "$0")/../vx/bounded.py" scalars quick >/dev/null 2>&1 || true
 python3 "$(dirname "$0")/../vx/bounded.py" extmerge quick >/dev/null 2>&1 || true
 python3 "$(dirname "$0")/../vx/bounded.py" loaderseq quick >/dev/null 2>&1 || true
+python3 "$(dirname "$0")/../vx/bounded.py" serverschema quick >/dev/null 2>&1 || true
